@@ -741,8 +741,10 @@ class ArgumentParser(ParserDeprecations, ActionsContainer, ArgumentLinking, argp
             kwargs["description"] = "For more details of each subcommand, add it as an argument followed by --help."
         default_config_files = self.default_config_files
         self.default_config_files = []
-        subcommands: _ActionSubCommands = super().add_subparsers(dest=dest, **kwargs)  # type: ignore[assignment]
-        self.default_config_files = default_config_files
+        try:
+            subcommands: _ActionSubCommands = super().add_subparsers(dest=dest, **kwargs)  # type: ignore[assignment]
+        finally:
+            self.default_config_files = default_config_files
         if required:
             self.required_args.add(dest)
         subcommands._required = required  # type: ignore[attr-defined]
